@@ -307,6 +307,11 @@ def main(argv=None):
                 print("replay %s: property holds" % replay_file)
                 return 0
             print(msg)
+            entry = known.load(pid).by_replay(os.path.relpath(os.path.abspath(replay_file), ROOT))
+            if entry is not None:
+                # the pinned reproducer of a listed finding: reported as such, as the tiers do
+                print("KNOWN-FINDING: property=%s %s" % (pid, entry.text))
+                return 0
             print("VIOLATION property=%s replay=%s" % (pid, replay_file))
             return 1
 
